@@ -8,7 +8,7 @@ def nontrivial(c):
         p = l.split(" ")
         if p[0] != "op":
             continue
-        if p[1] in ("cget", "reload"):
+        if p[1] in ("cget", "reload", "feed"):
             ok = True
         elif p[1] == "get" and len(p) > 3:
             w, e = p[2], p[3]
@@ -37,13 +37,17 @@ SPEC = dict(
     rule="cases = 1-3 generated rules configurations (top-level and rules-based environments, all five dynsampler-backed "
          "sampler types plus deterministic, definitions that differ from one another in exactly one parameter, environment "
          "names with ':' and spaces, field names with spaces) x 1-4 simulated workers x a history of get/peers/peersfail/"
-         "setcfg/clear/wreload/cget/reload on the real SamplerFactory (reload = the real InMemCollector.reloadConfigs on a collector "
+         "setcfg/clear/wreload/cget/reload/feed on the real SamplerFactory (feed = a worker asks every dynsampler behind its "
+         "sampler about n traces; every observation lists the events each registered dynsampler of every kind holds in its "
+         "counting window, read from the dynsampler-go structs; reload = the real InMemCollector.reloadConfigs on a collector "
          "shell with parked workers, one worker running a loop iteration in the middle of it, the observed order of its steps "
          "replayed on the model; cget = 2-8 goroutines released by a barrier ask the factory "
          "for the same sampler key at once, usually right after a clear, with a Metrics.Register that yields and sleeps 200us, "
          "GOMAXPROCS>=8); non-trivial = two different workers build a sampler for the same sampler key (sequentially or "
          "concurrently), or a sampler is built after a ClearDynsamplers; distinct by transcript hash",
-    trusted_base=["the harness' simulated worker cache (the three lines of makeDecision that consult datasetSamplers and the "
+    trusted_base=["dynsampler-go's per-key counters (currentCounts / countList) read through reflect+unsafe under the sampler's lock; "
+                  "cases are far shorter than any clearing interval (>= 10 s), so no ticker empties them during a case",
+                  "the harness' simulated worker cache (the three lines of makeDecision that consult datasetSamplers and the "
                   "`case <-cl.reload` arm that clears it); reloadConfigs itself is the real function, fed by real reload channels",
                   "pointer identity of the dynsampler behind a sampler = identity of its rate-tracking state",
                   "config.MockConfig.GetSamplerConfigForDestName behaves like fileConfig's (same code shape)"],
@@ -51,7 +55,7 @@ SPEC = dict(
         text="Lean theorems over all configurations and all histories of lazy sampler creation on any worker, peer changes, "
              "config swaps, registry clears and per-worker cache clears: workers_share (same prefix+definition => same "
              "instance, when keys determine sampler type), workers_share_concurrent (every order of simultaneous factory calls), workers_share_after_reload (reload in the code's "
-             "order: clear, then signal), reload_clears, isolation (full statement REFUTED by machine-checked "
+             "order: clear, then signal), feed_count_survives_other_workers_get (only feeding changes what a shared instance has counted), reload_clears, isolation (full statement REFUTED by machine-checked "
              "witnesses in three classes + a cross-type one; isolation_partial proved under: environment names without ':', "
              "field names non-empty without spaces). Model tied to sample/sample.go by replaying generated histories on the "
              "real SamplerFactory (registry keys, instance identity per sampler slot, goals) and comparing every observation.",
